@@ -90,7 +90,12 @@ def _single_letters(seed):
     return bounded.c20_single_letters(seed)
 
 
-QUICK_BOUNDED = [accept_list_bounded, _single_letters]
+def _equation_punct(seed):
+    from props import bounded
+    return bounded.c20_equation_punct(seed)
+
+
+QUICK_BOUNDED = [accept_list_bounded, _single_letters, _equation_punct]
 
 TRUSTED = ['assumed contract of re.Match: 0 <= start <= end <= len(string), group(0) == string[start:end]',
            'str.replace of one character by one character is a character-wise map (pyvc/builtins.py)']
